@@ -4,6 +4,7 @@ package olla
 
 import (
 	"encoding/json"
+	"sync"
 	"sync/atomic"
 	"testing"
 	"time"
@@ -41,6 +42,26 @@ func TestVerif_EngineBreaker(t *testing.T) {
 				}
 				f, st := state()
 				tr.Emit("Ask", "res", res, "f", f, "st", st)
+			case "Race":
+				// n goroutines ask at once (released together)
+				n := zzverif.Int(args[0])
+				var admits atomic.Int64
+				var wg sync.WaitGroup
+				start := make(chan struct{})
+				for k := 0; k < n; k++ {
+					wg.Add(1)
+					go func() {
+						defer wg.Done()
+						<-start
+						if !cb.IsOpen() {
+							admits.Add(1)
+						}
+					}()
+				}
+				close(start)
+				wg.Wait()
+				f, st := state()
+				tr.Emit("Race", "n", n, "admits", admits.Load(), "f", f, "st", st)
 			case "Fail":
 				cb.RecordFailure()
 				f, st := state()
